@@ -39,8 +39,10 @@ def parse_ops(s):
 
 
 def run_cfg_history(flags, init_en, init_div, ops, rxpadding=0, started=False, codec_factory=None, frame_cls=None,
-                    seed=None):
-    """returns (list of per-op state strings, info dict) in the format of the Lean driver `cfg run`"""
+                    seed=None, high=False):
+    """returns (list of per-op state strings, info dict) in the format of the Lean driver `cfg run`.
+    high: drive the calls through the NxscopeHandler wrappers, each called WITHOUT its `writenow` argument (the
+    documented default: buffered) and with a bare int for a single channel"""
     info = {}
 
     def scenario(sim):
@@ -51,8 +53,20 @@ def run_cfg_history(flags, init_en, init_div, ops, rxpadding=0, started=False, c
                                codec=codec_factory() if codec_factory else None)
         dev.started = started
         link = refdev.make_link(sim, dev, stream_every=3 if started else None)
-        comm = CommHandler(link, Parser(frame=frame_cls) if frame_cls else Parser())
-        comm.connect()
+        if high:
+            from nxslib.nxscope import NxscopeHandler
+            nx = NxscopeHandler(link, Parser(frame=frame_cls) if frame_cls else Parser())
+            nx.connect()
+            comm = nx._comm
+        else:
+            nx = None
+            comm = CommHandler(link, Parser(frame=frame_cls) if frame_cls else Parser())
+            comm.connect()
+        api = nx if high else comm
+
+        def chans_arg(txt):
+            cs = [int(x) for x in txt.split(",") if x != ""]
+            return cs[0] if (high and len(cs) == 1) else cs
         info["connect_time"] = sim.now
         info["dev_started_after_connect"] = dev.started
         n = len(init_en)
@@ -63,26 +77,26 @@ def run_cfg_history(flags, init_en, init_div, ops, rxpadding=0, started=False, c
             err = "-"
             try:
                 if op == "D":
-                    comm.channels_default_cfg()
+                    api.channels_default_cfg()
                 elif op == "A":
                     comm.ch_enable_all()
                 elif op == "N":
-                    comm.ch_disable_all()
+                    api.ch_disable_all()
                 elif op.startswith("W:"):
                     _, od, oe = op.split(":")
                     if comm.dev.data.div_supported:
                         pol.pending["div"].append(od)
                     pol.pending["enable"].append(oe)
-                    comm.channels_write()
+                    api.channels_write()
                     pol.pending["div"].clear()
                     pol.pending["enable"].clear()
                 elif op[0] == "e":
-                    comm.ch_enable([int(x) for x in op[1:].split(",") if x != ""])
+                    api.ch_enable(chans_arg(op[1:]))
                 elif op[0] == "d":
-                    comm.ch_disable([int(x) for x in op[1:].split(",") if x != ""])
+                    api.ch_disable(chans_arg(op[1:]))
                 elif op[0] == "v":
                     v, cs = op[1:].split(":")
-                    comm.ch_divider([int(x) for x in cs.split(",") if x != ""], int(v))
+                    api.ch_divider(chans_arg(cs), int(v))
                 else:
                     raise ValueError(op)
             except Exception as e:
@@ -100,7 +114,7 @@ def run_cfg_history(flags, init_en, init_div, ops, rxpadding=0, started=False, c
                        f"now={bits(comm.ch_is_enabled(i) for i in range(n))}/{ints(comm.ch_div_get(i) for i in range(n))};"
                        f"new={bits(ch.en_new)}/{ints(ch.div_new)};dev={bits(dev.en)}/{ints(dev.div)};"
                        f"cp={bits(cp_en)}/{ints(cp_div)};rs={int(ch.en_resync)}{int(ch.div_resync)}")
-        comm.disconnect()
+        (nx or comm).disconnect()
         info["live_after"] = [t.name for t in sim.live_tasks()]
         info["log"] = list(dev.log)
         return out
